@@ -1,1 +1,7 @@
+import Iauthd.Util.Bytes
 import Iauthd.Set.Model
+import Iauthd.Set.Spec
+import Iauthd.Set.Proofs
+import Iauthd.Set.Dispose
+import Iauthd.Set.Comparators
+import Iauthd.Properties.C19
